@@ -11,6 +11,7 @@ import (
 	"reflect"
 	"sort"
 	"strings"
+	"sync/atomic"
 	"time"
 
 	tq "github.com/facebookincubator/tacquito"
@@ -62,6 +63,26 @@ type sworld struct {
 // cfgSource is what loader.NewLoader consumes configurations from (the instrumented signature of Config()).
 type cfgSource interface{ Config() cfgChan }
 
+// gatedKeychain is a secret store whose answer can be held back: while armed, every fetch waits for a token on gate.
+type gatedKeychain struct {
+	gate  *vsyncrt.Chan[struct{}]
+	armed atomic.Bool
+}
+
+func (g *gatedKeychain) Add(k config.Keychain) func(context.Context, string) ([]byte, error) {
+	return func(ctx context.Context, name string) ([]byte, error) {
+		if g.armed.Load() {
+			g.gate.Recv()
+		}
+		return []byte(k.Key), nil
+	}
+}
+
+// sloaderKeychain, when set, replaces the reference keychain in newSLoader (reset by the job that set it).
+var sloaderKeychain interface {
+	Add(k config.Keychain) func(context.Context, string) ([]byte, error)
+}
+
 func newSLoader(ctx context.Context, lg *srvx.Logger, sink *sinkRec, kc *keychainRec, feed cfgSource) *loader.Loader {
 	acct, err := local.New(lg, local.SetLogSink(sink))
 	if err != nil {
@@ -72,7 +93,12 @@ func newSLoader(ctx context.Context, lg *srvx.Logger, sink *sinkRec, kc *keychai
 	}
 	ld, err := loader.NewLoader(ctx, feed,
 		loader.SetLoggerProvider(lg),
-		loader.SetKeychainProvider(secret.New()),
+		func() loader.Option {
+			if sloaderKeychain != nil {
+				return loader.SetKeychainProvider(sloaderKeychain)
+			}
+			return loader.SetKeychainProvider(secret.New())
+		}(),
 		loader.SetConfigProvider(config.New()),
 		loader.SetAuthorizerProvider(stringy.New(lg)),
 		loader.RegisterSecretProviderType(config.PREFIX, prefix.New(lg)),
@@ -368,6 +394,79 @@ func c15Jobs() []sjob {
 			}
 			x.obs = transcriptOf(key, r1)
 		}},
+		{"H16 a lookup held up in the secret store across a reload, then another lookup for the same address", func(x *sx) {
+			g := &gatedKeychain{gate: vsyncrt.MakeChan[struct{}]()}
+			sloaderKeychain = g
+			defer func() { sloaderKeychain = nil }()
+			lg, sink := &srvx.Logger{}, &sinkRec{}
+			ctx, cancel := context.WithCancel(context.Background())
+			defer cancel()
+			user := config.User{Name: "u", Scopes: []string{"s"}, Commands: []config.Command{{Name: "show", Action: config.PERMIT}}}
+			cfgA := config.ServerConfig{Secrets: []config.SecretConfig{scopeCfg("s", "key-A", "10.0.0.0/8")}, Users: []config.User{user}}
+			cfgB := config.ServerConfig{Secrets: []config.SecretConfig{scopeCfg("s", "key-B", "10.0.0.0/8")}, Users: []config.User{user}}
+			feed := cfgFeed{ch: mkCfgChan(1)}
+			ld := newSLoader(ctx, lg, sink, nil, feed)
+			feed.ch.Send(cfgA)
+			ld.BlockUntilLoaded()
+			addr := srvx.Addr4(10, 1, 1, 7, 99)
+			var first []byte
+			var wg vsyncrt.WaitGroup
+			wg.Add(1)
+			g.armed.Store(true)
+			vsyncrt.Go(func() {
+				first, _, _ = ld.Get(context.Background(), addr)
+				wg.Done()
+			})
+			vsyncrt.Quiesce() // the lookup is waiting for the secret store
+			g.armed.Store(false)
+			feed.ch.Send(cfgB)
+			feed.ch.Send(cfgB) // the one-slot channel has taken the second value only when the first was consumed
+			vsyncrt.Quiesce()
+			g.gate.Send(struct{}{})
+			wg.Wait()
+			vsyncrt.Quiesce()
+			second, _, err := ld.Get(context.Background(), addr)
+			if string(first) != "key-A" && string(first) != "key-B" {
+				x.fail("H16/functional", fmt.Sprintf("the held-up lookup was answered %q", first))
+			}
+			if err != nil || string(second) != "key-B" {
+				x.fail("H16/stale-after-reload", fmt.Sprintf("a lookup made after the reload had completed was answered secret %q (err %v); the configuration in force says key-B", second, err))
+			}
+			x.obs = string(first) + string(second)
+		}},
+		{"H15 two connections of a server whose secret provider hands out ONE key slice (with spare capacity) to every connection", func(x *sx) {
+			shared := append(make([]byte, 0, 64), "shared-secret-15"...)
+			w := newSWorldL(shared, c17Handler{w: nil})
+			w.srv = tq.NewServer(w.lg, srvx.FixedSecret{Key: shared, H: h15Handler{}})
+			w.serve()
+			var r1, r2 [][]byte
+			var wg vsyncrt.WaitGroup
+			wg.Add(2)
+			c1 := w.W.NewConn(1, srvx.Addr4(10, 0, 0, 1, 1001))
+			c2 := w.W.NewConn(2, srvx.Addr4(10, 0, 0, 2, 1002))
+			k := []byte("shared-secret-15")
+			vsyncrt.Go(func() {
+				sclient(w, c1, [][]byte{authorPkt(k, "u", 1, "service=shell", "cmd=show"), authorPkt(k, "u", 3, "service=shell", "cmd=show")}, &r1, true)
+				wg.Done()
+			})
+			vsyncrt.Go(func() {
+				sclient(w, c2, [][]byte{authorPkt(k, "u", 2, "service=shell", "cmd=show"), authorPkt(k, "u", 4, "service=shell", "cmd=show")}, &r2, true)
+				wg.Done()
+			})
+			wg.Wait()
+			w.shutdown()
+			for i, r := range [][][]byte{r1, r2} {
+				for j := range r {
+					if replyStatus(k, r[j], 2) != 1 {
+						x.fail("H15/functional", fmt.Sprintf("connection %d request %d: not answered PASS_ADD under the shared key", i+1, j+1))
+					}
+				}
+				if len(r) != 2 {
+					x.fail("H15/functional", fmt.Sprintf("connection %d: %d replies for 2 requests", i+1, len(r)))
+				}
+			}
+			x.obs = transcriptOf(k, r1) + transcriptOf(k, r2)
+		}},
 		{"H14 two connections asking for user names in spellings the configuration does not have", func(x *sx) {
 			w := newSWorldR(e.Cfg, nil)
 			w.serve()
@@ -501,6 +600,13 @@ func c15Jobs() []sjob {
 	}
 }
 
+// h15Handler answers every request with PASS_ADD.
+type h15Handler struct{}
+
+func (h15Handler) Handle(resp tq.Response, req tq.Request) {
+	resp.Reply(tq.NewAuthorReply(tq.SetAuthorReplyStatus(tq.AuthorStatusPassAdd)))
+}
+
 // c15H3: lookups concurrent with reload(s); every lookup must observe one complete configuration.
 func c15H3(x *sx, twoReloads bool) {
 	lg, sink := &srvx.Logger{}, &sinkRec{}
@@ -534,6 +640,10 @@ func c15H3(x *sx, twoReloads bool) {
 	}
 	vsyncrt.Go(func() { feed.ch.Send(cfgNew); wg.Done() })
 	wg.Wait()
+	// when the reloads and the lookups are over, the configuration in force is a new one: the address is refused
+	if s, _, err := ld.Get(context.Background(), srvx.Addr4(10, 1, 1, 7, 99)); err == nil {
+		x.fail("H3/stale-after-reload", fmt.Sprintf("after the reload(s) completed a lookup for an address the new configuration refuses was served with secret %q", s))
+	}
 	// old: served with key-OLD; new: refused by prefix_deny; third: refused by prefix_allow.
 	// a mixture (new providers under the old filters) would be served with key-NEW or key-THIRD.
 	for i, g := range []res{g1, g2} {
@@ -728,6 +838,7 @@ func c17Body(script []string, pending, patient bool, proxy ...bool) func(x *sx) 
 			partial = c17ProxyLine[:9] // a proxy line that never gets its terminator
 		}
 		sess := uint32(100)
+		cancelledAt := -1 // connections accepted when the context was cancelled
 		trickled := map[byte]int{}
 		// waitDeadline[i]: the read deadline armed when the server began to wait for connection i's current packet
 		waitDeadline := map[int]time.Time{}
@@ -792,6 +903,17 @@ func c17Body(script []string, pending, patient bool, proxy ...bool) func(x *sx) 
 				conns[ev[1]-'0'].FireDeadline()
 			case 'X':
 				w.cancel()
+				if cancelledAt < 0 {
+					cancelledAt = w.L.Accepted
+				}
+			case 'R':
+				// the read deadline of every connection that is open reaches its time
+				vsyncrt.Advance(20 * 1e9)
+				for _, c := range conns {
+					if !c.Closed() {
+						c.FireDeadline()
+					}
+				}
 			case 'L':
 				w.L.Close() // the embedding program closes the listener itself (to stop accepting at once)
 			case 'A':
@@ -816,6 +938,19 @@ func c17Body(script []string, pending, patient bool, proxy ...bool) func(x *sx) 
 					x.fail("C17/kept-open-past-deadline", fmt.Sprintf("connection %d: the server began to wait for a packet with the read deadline %s armed, no complete packet arrived, the clock reads %s and the connection is still open",
 						i, d0.Format("15:04:05"), vsyncrt.Now().Format("15:04:05")))
 				}
+			}
+		}
+		// steady arrivals: the context was cancelled, every blocked read has reached its deadline (R), and the only thing that
+		// has not happened is an accept timeout, because new connections kept arriving: Serve has returned all the same
+		if patient && len(script) > 0 && script[len(script)-1] == "R" && cancelledAt >= 0 {
+			returned := false
+			for _, e := range world.Events {
+				if e.Kind == "serve-return" {
+					returned = true
+				}
+			}
+			if !returned {
+				x.fail("C17/no-return-under-steady-arrivals", fmt.Sprintf("the context is cancelled and every blocked read has reached its deadline, but Serve has not returned: it accepted %d connections after the cancellation and waits for the next one", w.L.Accepted-cancelledAt))
 			}
 		}
 		// fair closing phase: cancel, then every armed deadline fires until Serve returns
@@ -846,6 +981,9 @@ func c17Body(script []string, pending, patient bool, proxy ...bool) func(x *sx) 
 			}
 		}
 		accepted := w.L.Accepted
+		// the accept loop looks at the context before every Accept: a call that was already waiting may still return one
+		// connection after the cancellation, every further one stays in the backlog
+		_ = cancelledAt
 		for i, c := range conns {
 			if i < accepted && !c.Closed() {
 				x.fail("C17/conn-open-after-return", fmt.Sprintf("connection %d was accepted and is still open after Serve returned", i))
@@ -914,6 +1052,12 @@ func c17Jobs(quick bool) []sjob {
 			jobs = append(jobs, sjob{"cancellation seen by the accept loop first, script " + strings.Join(s, " "), c17Body(s, false, false)})
 			jobs = append(jobs, sjob{"cancellation seen by the accept loop first, script (each event digested before the next) " + strings.Join(s, " "), c17Body(s, false, true)})
 		}
+	}
+	// steady arrivals after the cancellation: new connections keep the accept call from ever timing out
+	for _, s := range [][]string{{"C", "X", "C", "R", "C", "R"}, {"X", "C", "R", "C", "R", "C", "R"}, {"C", "F0", "X", "C", "C", "R", "C", "R"}} {
+		s := s
+		jobs = append(jobs, sjob{"steady arrivals, script (each event digested before the next) " + strings.Join(s, " "), c17Body(s, false, true)})
+		jobs = append(jobs, sjob{"steady arrivals, sessions left pending, script (each event digested before the next) " + strings.Join(s, " "), c17Body(s, true, true)})
 	}
 	// the embedding program closes the listener itself (L) while connections are idle, mid-packet or mid-exchange, before
 	// or after it cancels: Serve still returns only when every connection goroutine has finished
@@ -1110,14 +1254,14 @@ func c08SchedJobs(quick bool) []sjob {
 	}
 	rec(nil)
 	var jobs []sjob
-	for _, fl := range []byte{0, 4, 0x80} {
+	for _, fl := range []byte{0, 4, 0x80, 0x84} {
 		for _, sc := range scripts {
 			fl, sc := fl, sc
-			// flag value 0x80 stands for: flags 0, all packets coalesced into ONE segment (scripts of two packets)
-			oneSegment := fl == 0x80
+			// bit 0x80 stands for: all packets coalesced into ONE segment (scripts of two packets; three with single-connect)
+			oneSegment := fl&0x80 != 0
 			if oneSegment {
-				fl = 0
-				if len(sc) != 2 {
+				fl &^= 0x80
+				if len(sc) != 2 && !(fl == 4 && len(sc) == 3 && sc[0].seq == 1 && !quick) {
 					continue
 				}
 			}
@@ -1126,7 +1270,7 @@ func c08SchedJobs(quick bool) []sjob {
 			}
 			name := fmt.Sprintf("pipelined packets, flags %#x:", fl)
 			if oneSegment {
-				name = "pipelined packets in one segment:"
+				name = fmt.Sprintf("pipelined packets in one segment, flags %#x:", fl)
 			}
 			for _, p := range sc {
 				name += fmt.Sprintf(" %x:%d", p.sid, p.seq)
@@ -1322,6 +1466,32 @@ func c13SchedJobs() []sjob {
 			for _, a := range c13SchedAddrs {
 				secret, handler, err := ld.Get(context.Background(), &net.TCPAddr{IP: a, Port: 1313})
 				c13Judge(x, scopes, a, secret, handler, err)
+			}
+			x.obs = "ok"
+		}})
+		// a lookup whose caller has given up (its context is already over), then lookups for other addresses: every answer
+		// belongs to the address it was asked for
+		jobs = append(jobs, sjob{fmt.Sprintf("overlapping scopes in configuration order %v: a lookup abandoned by its caller, then lookups for other addresses", order), func(x *sx) {
+			lg, sink := &srvx.Logger{}, &sinkRec{}
+			ctx, cancel := context.WithCancel(context.Background())
+			defer cancel()
+			feed := cfgFeed{ch: mkCfgChan(1)}
+			ld := newSLoader(ctx, lg, sink, nil, feed)
+			feed.ch.Send(mk(order))
+			ld.BlockUntilLoaded()
+			var scopes []ref.Scope
+			for _, i := range order {
+				sc := c13Scopes[i]
+				scopes = append(scopes, ref.Scope{Name: sc.Name, Key: sc.Key, Prefixes: sc.Prefixes, Effective: sc.Users})
+			}
+			gone, giveUp := context.WithCancel(context.Background())
+			giveUp()
+			// whatever the abandoned lookup returns - its own verdict or an error - is not judged
+			ld.Get(gone, &net.TCPAddr{IP: c13SchedAddrs[0], Port: 1313})
+			vsyncrt.Quiesce()
+			for _, k := range []int{2, 4, 1} {
+				secret, handler, err := ld.Get(context.Background(), &net.TCPAddr{IP: c13SchedAddrs[k], Port: 1313})
+				c13Judge(x, scopes, c13SchedAddrs[k], secret, handler, err)
 			}
 			x.obs = "ok"
 		}})
